@@ -4,3 +4,14 @@ cd "$(dirname "$0")"
 . ./env.sh
 mkdir -p bin evidence replays
 go build -tags verif -o bin/check ./cmd/check || go build -o bin/check ./cmd/check
+# C16: warm the race-enabled build and the overlay build
+go build -race -o bin/c16race ./cmd/c16race || true
+mkdir -p bin/c16
+python3 - <<'PY'
+import json, re
+src = open('/repo/pools.go').read()
+new = re.sub(r'import\s+"sync"', 'import sync "github.com/asticode/go-astits/verifsync"', src)
+open('/verif/bin/c16/pools.go', 'w').write(new)
+json.dump({"Replace": {"/repo/pools.go": "/verif/bin/c16/pools.go", "/repo/verifsync/verifsync.go": "/verif/shim/verifsync.go"}}, open('/verif/bin/c16/overlay.json', 'w'))
+PY
+go build -overlay bin/c16/overlay.json -tags "verif c16shim" -o bin/c16sched ./cmd/c16 || true
